@@ -161,6 +161,52 @@ def _job(version):
                     problems.append(f'{version} {label}: database differs from adding the two files one by one')
             except Exception as exc:   # noqa: BLE001
                 problems.append(f'{version} {label}: {type(exc).__name__}: {exc}')
+        # a package whose extra files include a sub-directory with another WN-LMF file (an older release kept for
+        # reference): still a package - its own resource is added, not the nested one
+        cases += 1
+        nested = os.path.join(work, 'nestedpkg')
+        os.makedirs(os.path.join(nested, 'previous'))
+        shutil.copy(xa, os.path.join(nested, 'lex.xml'))
+        shutil.copy(xb, os.path.join(nested, 'previous', 'old.xml'))
+        open(os.path.join(nested, 'README.md'), 'w').write('package with an older release in previous/\n')
+        db = _fresh(wn, work, f'{version}_ref_a')
+        wn.add(xa, progress_handler=None)
+        ref_a = logical_dump(db)
+        ntar = os.path.join(work, 'nestedpkg.tar.gz')
+        with tarfile.open(ntar, 'w:gz') as tf:
+            tf.add(nested, arcname='nestedpkg')
+        for label, src_ in (('package with a nested directory', nested), ('tar.gz of such a package', ntar)):
+            db = _fresh(wn, work, f'{version}_nested_{"dir" if src_ == nested else "tar"}')
+            try:
+                wn.add(src_, progress_handler=None)
+                if logical_dump(db) != ref_a:
+                    problems.append(f'{version} {label}: database differs from adding the package\'s own resource file')
+            except Exception as exc:   # noqa: BLE001
+                problems.append(f'{version} {label}: {type(exc).__name__}: {exc}')
+        # the same document with an XML declaration in single quotes (what ElementTree / lxml write; lmf._read_header
+        # accepts it): every file route must take it like the plain file dumped by wn
+        cases += 1
+        text = open(xa, encoding='utf-8').read()
+        head, rest = text.split('\n', 1)
+        sq = os.path.join(work, 'sq.xml')
+        open(sq, 'w', encoding='utf-8').write(head.replace('"', "'") + '\n' + rest)
+        sq_routes = {'xml': sq}
+        for suffix, opener in (('.gz', gzip.open), ('.xz', lzma.open)):
+            with open(sq, 'rb') as src_, opener(sq + suffix, 'wb') as dst_:
+                shutil.copyfileobj(src_, dst_)
+            sq_routes[suffix[1:]] = sq + suffix
+        sqpkg = os.path.join(work, 'sqpkg')
+        os.makedirs(sqpkg)
+        shutil.copy(sq, os.path.join(sqpkg, 'lex.xml'))
+        sq_routes['package'] = sqpkg
+        for r, p_ in sq_routes.items():
+            db = _fresh(wn, work, f'{version}_sq_{r}')
+            try:
+                wn.add(p_, progress_handler=None)
+                if logical_dump(db) != ref_a:
+                    problems.append(f'{version} single-quoted declaration, route {r}: database differs')
+            except Exception as exc:   # noqa: BLE001
+                problems.append(f'{version} single-quoted declaration, route {r}: {type(exc).__name__}: {exc}')
         # an extension whose base is not installed is skipped as a whole; a partially installed file adds the rest
         if version != '1.0':
             cases += 1
